@@ -41,10 +41,17 @@ def percentDecode (p : Bytes) : Bytes :=
 
 def DOTSLASH : Bytes := [DOT, SLASH]
 
-/-- the path test of `sanitize_request` -/
-def pathOk (p : Bytes) : Bool :=
-  let d := percentDecode p
+/-- the three tests of the statement on a decoded path: no `./`, starts with `/`, not absolute behind it -/
+def byteOk (d : Bytes) : Bool :=
   !(containsSub DOTSLASH d) && d.head? == some SLASH && !((d.drop 1).head? == some SLASH)
+
+/-- the path test of `sanitize_request` (after fix commit for F39): the three tests on the decoded *bytes*, UTF-8 or
+not, and then `parse::uri(..).is_relative()` on `utils::percent_decode`'s string (the raw path when the decoded
+bytes are not UTF-8) -/
+def pathOk (p : Bytes) : Bool :=
+  byteOk (pdecode p) &&
+    (let d := percentDecode p
+     d.head? == some SLASH && !((d.drop 1).head? == some SLASH))
 
 structure Cfg where
   folderDefault : Bytes        -- default "index.html"
